@@ -180,11 +180,13 @@ def one_context_rule(chk, P):
         if b.name in (EC + "new_with_outputs",):
             continue   # the constructor fills the context it is creating
         own = set()
+        own_names = {"ctx", "self"}
         holder = b
         while holder is not None:   # a closure reads its parent's context parameter through a capture of the same name
             for i, l in enumerate(holder.locals[1:1 + holder.arg_count]):
                 if re.match(r"^&('\w+ )?(mut )?eval_context::EvalContext$", l["ty"]):
                     own.add(i)
+                    own_names.add(holder.local_name(1 + i))     # whatever the parameter is called (`_ctx` of a stub that got a body)
             holder = P.body(holder.parent) if holder.parent else None
         for bb, t in b.calls():
             fty = t["func"].get("ty", "") if isinstance(t.get("func"), dict) else ""
@@ -196,7 +198,7 @@ def one_context_rule(chk, P):
             for i in idx:
                 n += 1
                 a = args[i] if i < len(args) else None
-                if a in ("ctx", "self") and own:
+                if a in own_names and own:
                     continue
                 if a == "self.ctx" and b.name.startswith(("data_row_iterator::DataRowIterator::", "<data_row_iterator::DataRowIterator<T> as")):
                     continue
